@@ -43,6 +43,10 @@ CHECKS = {
    technique='exhaustive enumeration of the finite product events x cone setups x entry points x deviate grid with geometric invariants; differential generator-level runs',
    text='1.4M (quick) / ~6M (thorough) applications of the real operation over the full product of synthetic and generated events, cone axes, apertures, rectangular half-angle pairs, filters, ranks, error flag and all five configuration entry points, with both tails of the two cone deviates; every application is checked for count/species/time/|p| preservation, rigid proper rotation, cone or rectangular-window membership (frame built independently), untouched unselected particles, and the nothing-selected rules; generator-level runs compare the decay sample with and without the operation.',
    note='Trusted: independent cone-frame construction (Rz(phi)Ry(theta)); tolerances stated in the evidence.'),
+ 'C16': dict(level='exploration', ref='DESIGN.md §2 C16', engine='c16',
+   technique='exhaustive enumeration of monomial/degree/interval/panel grids against closed forms (exactness by linearity) with negative controls',
+   text='Each kernel is run on a complete finite grid whose oracle is a closed form or an independent evaluation: all monomials up to the guaranteed degree for the Gauss-Legendre panels and Simpson (with the first non-exact degree as negative control), integrand families with closed-form integrals for the adaptive quadrature at every requested tolerance, unimodal families for the golden section, polynomials on three table layouts for divided differences, an angle grid for the Euler rotation and a (Z,E) grid for the Fermi function against an independent long-double Lanczos evaluation.',
+   note='Trusted: closed forms; long double arithmetic of the reference evaluations.'),
 }
 NOT_YET = {
 }
@@ -84,6 +88,7 @@ def main():
             {'name': 'c07', 'path': 'checks/c07.cc', 'serves_properties': ['C07'], 'kind_free_text': 'history enumerator with differential probe shots'},
             {'name': 'c11', 'path': 'checks/c11.cc', 'serves_properties': ['C11'], 'kind_free_text': 'reader window model checker and round-trip enumerator'},
             {'name': 'c10', 'path': 'checks/c10.cc', 'serves_properties': ['C10'], 'kind_free_text': 'MDL product enumerator with geometric invariants'},
+            {'name': 'c16', 'path': 'checks/c16.cc', 'serves_properties': ['C16'], 'kind_free_text': 'kernel contract grids'},
             {'name': 'd0ref', 'path': 'tools/f2cxx.py', 'serves_properties': ['C01', 'C02', 'C06'], 'kind_free_text': 'reference model generated from resources/code/decay0/decay0_2020-04-20.for'},
         ],
         'checks': checks,
